@@ -146,8 +146,12 @@ def revolve(
     # this covers many cases without having to think too much
     # the quad of the last point indexes into the slice after the
     # next one, which only exists if there are two or more slices
-    slice_area = triangles.area(vertices[single % len(vertices)])
-    single = single[slice_area > tol.merge * slice_area.max()]
+    # a triangle of a revolved quad is degenerate exactly when two of its
+    # corners coincide: compare every triangle with itself, not with the
+    # largest one, or slender shapes lose their caps and flat ones their wall
+    edge = vertices[single % len(vertices)]
+    edge = np.linalg.norm(edge - np.roll(edge, 1, axis=1), axis=2)
+    single = single[edge.min(axis=1) > tol.zero * edge.max(axis=1)]
 
     # how much to offset each slice
     # note arange multiplied by vertex stride
